@@ -325,6 +325,8 @@ def run(ctx: common.Ctx):
     batch_chained_name_tags(ctx)
     from . import c07_shared
     c07_shared.batch_shared_tagged_nodes(ctx)
+    from . import c07_redn_descr
+    c07_redn_descr.batch_reduction_descriptors(ctx)
     batch_truthful_promise_tags(ctx)
     ctx.broken = sorted(set(ctx.broken))[:50]
 
